@@ -437,6 +437,45 @@ func C16(p *core.Program, r *core.Report) {
 			r.Check(ok, "single-instance/"+fname(rc)+"/store-after-activation", "an element is (re)entered into the registry only if its activation succeeded or shall be retried", p.Pos(st.Pos()), "", "Store reachable on !successful && !retry")
 		}
 	}
+	// closed-while-starting: Start() of an adapter may take seconds; the stop flag tested at the entry of Register is
+	// stale by the time the element is stored. Every Store is followed by a fresh isStopped() test whose true arm
+	// stops the adapter again (Close has not seen the element, or is racing with it; deactivation is idempotent).
+	for _, st := range core.CallsTo(rc, "sync.Map.Store") {
+		isStop := func(in ssa.Instruction) bool {
+			c, ok := in.(ssa.CallInstruction)
+			return ok && core.NameIs(core.CalleeName(c), claPkg+".Manager.isStopped")
+		}
+		okRe, _ := core.MustPassAfter(st, isStop, core.IsReturn)
+		okStop, why := false, "no isStopped() test after the Store on every path"
+		if okRe {
+			why = "the isStopped()==true arm after the Store does not stop the adapter"
+			for _, blk := range rc.Blocks {
+				ifi, isIf := blk.Instrs[len(blk.Instrs)-1].(*ssa.If)
+				if !isIf {
+					continue
+				}
+				call, isC := core.CondIsCall(core.Cond{V: ifi.Cond, True: true}, claPkg+".Manager.isStopped")
+				if !isC || !core.BlocksReachableFrom(st.Block())[call.Block()] {
+					continue
+				}
+				first := blk.Succs[0].Instrs[0]
+				stops := func(in ssa.Instruction) bool {
+					c, ok := in.(ssa.CallInstruction)
+					if !ok {
+						return false
+					}
+					n := core.CalleeName(c)
+					return core.NameIs(n, claPkg+".Manager.unregisterConvergence") || core.NameIs(n, claPkg+".Manager.Unregister") || core.NameIs(n, claPkg+".convergenceElem.deactivate")
+				}
+				if stops(first) {
+					okStop = true
+				} else if ok2, _ := core.MustPassAfter(first, stops, core.IsReturn); ok2 {
+					okStop = true
+				}
+			}
+		}
+		r.Check(okRe && okStop, "closing/"+fname(rc)+"/closed-while-starting", "an element stored by a registration that outlived the Manager's Close is stopped by the registration itself: the stop flag is tested again after the Store and its true arm deactivates the adapter", p.Pos(st.Pos()), "", why)
+	}
 	// key agreement: Load and Store use conv.Address()
 	okKey := true
 	for _, n := range []string{"sync.Map.Load", "sync.Map.Store"} {
